@@ -361,3 +361,10 @@ func (m *Model) Clone() *Model {
 	}
 	return c
 }
+
+// LastNonce returns the highest nonce accepted for id so far.
+func (m *Model) LastNonce(id string) (int64, bool) {
+	m.mu.Lock()
+	defer m.mu.Unlock()
+	return m.nonces[id], m.hasNonce[id]
+}
